@@ -1,6 +1,7 @@
 SPECIFICATION Spec
 CONSTANTS Devs = {}
-          Cases <- MQuick
+          Cases <- MCSel
+          Family = "MQuick"
           GF = 2
           FPKeys = {1, 2, 3, 4, 5}
 INVARIANTS StackIsRecursive EmitSafe EmitOnce NoFalseNegative ChainShape CountRight
